@@ -92,6 +92,19 @@ Record order_laws : Prop := {
       py_lt x y = false -> py_lt y x = false -> py_lt x z = py_lt y z /\ py_lt z x = py_lt z y
 }.
 
+(* the same laws relative to any class [ok] of values (Expr/OrderThm.v proves them for ok = non-NaN and canonical; the
+   record above, which quantifies over every non-NaN [pyval] including non-canonical mantissa/exponent pairs, is refuted there) *)
+Record order_laws_on (ok : pyval -> Prop) : Prop := {
+  olo_gt_lt : forall x y, py_gt x y = py_lt y x;
+  olo_irrefl : forall x, ok x -> py_lt x x = false;
+  olo_trans : forall x y z, ok x -> ok y -> ok z -> py_lt x y = true -> py_lt y z = true -> py_lt x z = true;
+  olo_incomp : forall x y z, ok x -> ok y -> ok z ->
+      py_lt x y = false -> py_lt y x = false -> py_lt x z = py_lt y z /\ py_lt z x = py_lt z y
+}.
+
+Lemma order_laws_as_on : order_laws -> order_laws_on not_nan.
+Proof. intros [A B C D]. constructor; assumption. Qed.
+
 Lemma min_loop_scan m t : min_loop m t = scan pyval py_lt m t.
 Proof. revert m. induction t as [|e t IH]; intros m; cbn [min_loop scan]; [reflexivity|apply IH]. Qed.
 
@@ -104,6 +117,31 @@ Proof.
   - exact H1.
   - apply IH; exact H2.
 Qed.
+
+Section WithLawsOn.
+  Variable ok : pyval -> Prop.
+  Hypothesis laws : order_laws_on ok.
+
+  Lemma min_agrees_on m t : Forall ok (m :: t) -> existsb is_nan_val (m :: t) = false -> Val (min_loop m t) = spec_min (m :: t).
+  Proof.
+    intros Hok Hn. unfold spec_min. rewrite Hn. unfold first_such.
+    pose proof (scan_is_first_unbeaten pyval ok py_lt (olo_irrefl ok laws) (olo_trans ok laws)
+                  (fun x y z a b c d e => proj1 (olo_incomp ok laws x y z a b c d e)) m t Hok) as H.
+    unfold unbeaten in H. rewrite H, min_loop_scan. reflexivity.
+  Qed.
+
+  Lemma max_agrees_on m t : Forall ok (m :: t) -> existsb is_nan_val (m :: t) = false -> Val (max_loop m t) = spec_max (m :: t).
+  Proof.
+    intros Hok Hn. unfold spec_max. rewrite Hn. unfold first_such.
+    assert (Hirr : forall x, ok x -> py_gt x x = false) by (intros; rewrite (olo_gt_lt ok laws); apply (olo_irrefl ok laws); assumption).
+    assert (Htr : forall x y z, ok x -> ok y -> ok z -> py_gt x y = true -> py_gt y z = true -> py_gt x z = true).
+    { intros x y z Hx Hy Hz. rewrite !(olo_gt_lt ok laws). intros A B. apply (olo_trans ok laws z y x); assumption. }
+    assert (Hinc : forall x y z, ok x -> ok y -> ok z -> py_gt x y = false -> py_gt y x = false -> py_gt x z = py_gt y z).
+    { intros x y z Hx Hy Hz. rewrite !(olo_gt_lt ok laws). intros A B. apply (proj2 (olo_incomp ok laws x y z Hx Hy Hz B A)). }
+    pose proof (scan_is_first_unbeaten pyval ok py_gt Hirr Htr Hinc m t Hok) as H.
+    unfold unbeaten in H. rewrite H, max_loop_scan. reflexivity.
+  Qed.
+End WithLawsOn.
 
 Section WithLaws.
   Hypothesis laws : order_laws.
@@ -255,6 +293,66 @@ Section Main.
     intros vs G. apply fn_agrees. intros Hs. rewrite Hs, G in Hnan. apply negb_true_iff in Hnan. exact Hnan.
   Qed.
 End Main.
+
+(* the same theorem relative to a decidable class [okb] of values on which the laws hold: every value reaching MIN / MAX / SGN
+   is in the class.  Instantiated without any law hypothesis in Expr/OrderThm.v (okb = non-NaN and canonical). *)
+Fixpoint sensitive_args_ok (okb : pyval -> bool) (c : ctx) (e : expr) {struct e} : bool :=
+  match e with
+  | Call f args =>
+      forallb (sensitive_args_ok okb c) args
+      && (if nan_sensitive f
+          then match gather (map (eval false c) args) with inl vs => forallb okb vs | inr _ => true end
+          else true)
+  | _ => true
+  end.
+
+Section MainOn.
+  Variable okb : pyval -> bool.
+  Hypothesis okb_not_nan : forall v, okb v = true -> is_nan_val v = false.
+  Hypothesis laws : order_laws_on (fun v => okb v = true).
+
+  Lemma okb_forall vs : forallb okb vs = true -> Forall (fun v => okb v = true) vs /\ existsb is_nan_val vs = false.
+  Proof.
+    induction vs as [|v vs IH]; cbn [forallb existsb]; intros H; [split; [constructor|reflexivity]|].
+    apply andb_true_iff in H. destruct H as [H1 H2]. destruct (IH H2) as [IH1 IH2].
+    split; [constructor; assumption|]. rewrite (okb_not_nan v H1), IH2. reflexivity.
+  Qed.
+
+  Lemma fn_agrees_on c f vs :
+    (nan_sensitive f = true -> forallb okb vs = true) -> apply_fn false c f vs = spec_fn c f vs.
+  Proof.
+    intros Hn. unfold spec_fn, nan_sensitive in *.
+    destruct (String.eqb f "MIN") eqn:E1.
+    { apply String.eqb_eq in E1. subst f. destruct vs as [|m t]; [reflexivity|].
+      change (apply_fn false c "MIN" (m :: t)) with (Val (min_loop m t)).
+      destruct (okb_forall _ (Hn eq_refl)) as [Hok Hnn]. apply (min_agrees_on _ laws); assumption. }
+    destruct (String.eqb f "MAX") eqn:E2.
+    { apply String.eqb_eq in E2. subst f. destruct vs as [|m t]; [reflexivity|].
+      change (apply_fn false c "MAX" (m :: t)) with (Val (max_loop m t)).
+      destruct (okb_forall _ (Hn eq_refl)) as [Hok Hnn]. apply (max_agrees_on _ laws); assumption. }
+    destruct (String.eqb f "SGN") eqn:E3; [|reflexivity].
+    apply String.eqb_eq in E3. subst f. destruct vs as [|x [|y r]]; try reflexivity.
+    change (apply_fn false c "SGN" [x]) with (sgn_of false x). unfold spec_sgn, sgn_of.
+    destruct (okb_forall _ (Hn eq_refl)) as [_ Hnn]. cbn [existsb] in Hnn. rewrite orb_false_r in Hnn. rewrite Hnn. reflexivity.
+  Qed.
+
+  Theorem eval_matches_reference_on c e : sensitive_args_ok okb c e = true -> eval false c e = sem c e.
+  Proof.
+    induction e as [v|id| |id| |f args IH] using expr_ind'; intros Hfree; try reflexivity.
+    cbn [sensitive_args_ok] in Hfree. apply andb_true_iff in Hfree. destruct Hfree as [Hargs Hnan].
+    assert (Heq : Forall (fun a => eval false c a = sem c a) args).
+    { rewrite forallb_forall in Hargs. rewrite Forall_forall in *. intros a Ha. apply IH; [exact Ha|apply Hargs; exact Ha]. }
+    assert (Hmap : map (eval false c) args = map (sem c) args).
+    { clear -Heq. induction Heq as [|a l Ha Hl IHl]; cbn [map]; [reflexivity|rewrite Ha, IHl; reflexivity]. }
+    cbn [eval sem].
+    destruct (String.eqb f "AND") eqn:EA.
+    { rewrite and_loop_is_spec_and, Hmap. reflexivity. }
+    destruct (String.eqb f "OR") eqn:EO.
+    { rewrite or_loop_is_spec_or, Hmap. reflexivity. }
+    apply call_common_ext; [exact Heq|].
+    intros vs G. apply fn_agrees_on. intros Hs. rewrite Hs, G in Hnan. exact Hnan.
+  Qed.
+End MainOn.
 
 (* ------------------------------------------------------------------ laziness at the level of expressions *)
 
